@@ -454,6 +454,13 @@ func execAtlasLib(r *atlasRun, dir string) *atlasObs {
 	if r.OutFault == 1 {
 		os.MkdirAll(filepath.Join(outDir, fmt.Sprintf("out.log.%d", r.OutFaultAt)), 0o755)
 	}
+	if r.OutFault == 0 {
+		// what an earlier run left at the output paths: a longer file for every second host
+		stale := []byte(strings.Repeat("{\"stale\":\"line of an earlier run\"}\n", 20000))
+		for i := 1; i < len(r.Hosts); i += 2 {
+			os.WriteFile(filepath.Join(outDir, fmt.Sprintf("out.log.%d", i)), stale, 0o644)
+		}
+	}
 	oldTmp := os.Getenv("TMPDIR")
 	os.Setenv("TMPDIR", tmpSpelling(tmp, r.TmpForm))
 	defer os.Setenv("TMPDIR", oldTmp)
@@ -534,6 +541,13 @@ func execAtlasCLI(c *Ctx, r *atlasRun, dir string) (*atlasObs, error) {
 	}
 	if r.OutFault == 1 {
 		os.MkdirAll(filepath.Join(outDir, fmt.Sprintf("out.log.%d", r.OutFaultAt)), 0o755)
+	}
+	if r.OutFault == 0 {
+		// what an earlier run left at the output paths: a longer file for every second host
+		stale := []byte(strings.Repeat("{\"stale\":\"line of an earlier run\"}\n", 20000))
+		for i := 1; i < len(r.Hosts); i += 2 {
+			os.WriteFile(filepath.Join(outDir, fmt.Sprintf("out.log.%d", i)), stale, 0o644)
+		}
 	}
 	sb, _ := json.Marshal(r.script())
 	scriptPath := filepath.Join(dir, "script.json")
